@@ -587,7 +587,7 @@ def contains(I, st, container, item):
             yield st, disj(parts)
             return
         if e.kind == "set":
-            yield st, I.set_elem(st, item) in e.items
+            yield st, I.set_elem(st, item, e.items) in e.items
             return
         if e.kind == "dict":
             if symmode(I, st, e, item):
@@ -1335,6 +1335,8 @@ def obj_binop(I, st, op, a, b, inplace=False, reflected=False):
 
 def set_binop(I, st, op, ea, eb):
     a, b = ea.items, eb.items
+    for x in b:
+        I.set_elem(st, x, a)  # elements with a user-defined __eq__: identity must be the right notion of "same element"
     if op == "BitOr":
         r = a + [x for x in b if x not in a]
     elif op == "BitAnd":
